@@ -28,6 +28,8 @@ package tls
 //@   ensures unadvertised: !advertisedAlg(algs, m.algorithm) ==> ret0 == nil && ret1 != nil
 //@   ensures exact: ret1 == nil ==> rdtotal(val(callarg(io.ReadFull, 0, 0))) == L
 //@   ensures parsed: ret1 == nil ==> ret0 != nil && callres(unmarshal, 0)
+//@   ensures clean_end: ret1 == nil ==> rdclean(val(callarg(io.ReadFull, 0, 0)))
+//@   note clean_end: a stream that fails after the declared length (checksum mismatch, truncated trailer) is rejected: the body read drops the decoder's error once the buffer is full, only the trailing read reports it
 //@   ensures either: ret0 == nil || ret1 == nil
 //@   at before call io.ReadFull#0: assert whole: len(arg1) == L
 //@   at before call io.ReadFull#1: assert same_reader: arg0 == callarg(io.ReadFull, 0, 0) && len(arg1) == 1
